@@ -1,6 +1,7 @@
 (* C06 - At most one inter-node hop; local upstreams are always preferred. *)
 From Coq Require Import List String NArith ZArith Bool.
 From Piko Require Import Base.Maps Base.Strs Proxy.Endpoint Proxy.Http Proxy.Route ProxyP.Final.
+From Piko Require Import Proxy.Dynamic ProxyP.DynamicP.
 Import ListNotations.
 Open Scope string_scope. Open Scope list_scope.
 
@@ -72,8 +73,96 @@ Example C06_example_two_hops :
 Proof. exact x_delivery. Qed.
 Example C06_example_wf : wf_cluster x_c. Proof. exact x_c_wf. Qed.
 
+(* ---- over time (Proxy/Dynamic.v): upstreams register and deregister between requests, listeners announce go-away, the
+   proxies deregister an upstream whose dial answers ErrGone. The servers keep nothing else from one request to the next. ---- *)
+
+(* every state reached by any history of connects, disconnects, go-aways, environment changes and requests is a cluster the
+   theorems above apply to *)
+Theorem C06_dynamic_wf :
+  forall (ops : list dop) (s : dstate), wf_cluster (d_c s) ->
+    wf_cluster (d_c (fst (drun s ops))) /\ wf_cluster (as_seen (fst (drun s ops))).
+Proof. intros ops s H. split; [apply drun_wf, H|apply as_seen_wf, drun_wf, H]. Qed.
+
+(* "serves the request locally", whatever happened before: after ANY history a node that holds a balancer for the addressed
+   endpoint dials one of its members itself (one invocation, one dial, no EDialNode) - an earlier forward to another node, or
+   anything else a server might remember, does not enter the decision *)
+Theorem C06_dynamic_local_first :
+  forall (s0 : dstate) (ops : list dop) (e : env) (entry : nat) (a : node) (rq : request) (us : list upstream),
+  let s := fst (drun s0 ops) in
+  nth_error (d_c s) entry = Some a -> pre_ok e rq ->
+  lookup (addressed_endpoint rq) (n_local a) = Some us -> us <> [] ->
+  let r := deliver (as_seen s) e entry rq in
+  exists u, In u us
+    /\ res_trace r = [EInvoke entry; EDialUp entry (u_id u)]
+    /\ res_up r = Some (mask_up (d_gone s) u)
+    /\ ((exists rs, res_out r = Served entry (mask_up (d_gone s) u) rs) \/ res_out r = Status 502 \/ res_out r = Status 504).
+Proof. exact dyn_local_first. Qed.
+
+(* at most one inter-node hop and no amplification for every request of every history *)
+Theorem C06_dynamic_one_hop :
+  forall (ops : list dop) (s : dstate), ops_keep ops ->
+  Forall (fun x => match x with
+                   | Some r => trace_ok (res_trace r) = true /\ invocations r <= 2 /\ dials r <= invocations r
+                   | None => True end) (snd (drun s ops)).
+Proof. exact dyn_one_hop. Qed.
+
+(* a request whose dial is refused - in particular by an upstream that has announced go-away - is answered 502: not retried
+   on another upstream, not passed on to another node (also when it arrived already forwarded) *)
+Theorem C06_refused_dial_is_502 :
+  forall (s : dstate) (e : env) (T : Z) (entry : nat) (a : node) (rq : request) (u : upstream),
+  wf_cluster (d_c s) -> e_keep e = true ->
+  (forall n, In n (d_c s) -> n_timeout n = T) -> (0 <= T)%Z ->
+  nth_error (d_c s) entry = Some a -> route_of rq = RHttp ->
+  permitted (e_token e) (addressed_endpoint rq) = true ->
+  (is_ws_upgrade rq = false \/ announces_upgrade rq = true) ->
+  let r := deliver (as_seen s) e entry rq in
+  res_up r = Some u -> u_beh u = UDialFail ->
+  res_out r = Status 502 /\ invocations r <= 2 /\ dials r <= invocations r.
+Proof. exact dyn_refused_dial_is_502. Qed.
+
+(* the dial of a go-away upstream deregisters exactly that upstream on the dialling node; every other outcome (any other dial
+   error, a reset, a timeout, a served request) leaves every registry alone *)
+Theorem C06_gone_deregistered :
+  forall (s : dstate) (r : result) (u : upstream) (ni : nat),
+  res_up r = Some u -> dialler (res_trace r) = Some ni -> is_gone (d_gone s) (u_id u) = true ->
+  let s' := after_request s r in
+  d_gone s' = d_gone s
+  /\ (forall k, k <> ni -> nth_error (d_c s') k = nth_error (d_c s) k)
+  /\ (forall n, nth_error (d_c s) ni = Some n ->
+        exists n', nth_error (d_c s') ni = Some n' /\ n_view n' = n_view n /\ n_id n' = n_id n /\ n_addr n' = n_addr n
+          /\ (forall ep, ep <> u_ep u -> lookup ep (n_local n') = lookup ep (n_local n))
+          /\ (forall us, lookup (u_ep u) (n_local n') = Some us -> forall x, In x us -> u_id x <> u_id u)).
+Proof. exact dyn_gone_deregistered. Qed.
+
+Theorem C06_other_outcomes_keep_registry :
+  forall (s : dstate) (r : result),
+  (forall u, res_up r = Some u -> is_gone (d_gone s) (u_id u) = false) -> after_request s r = s.
+Proof. exact dyn_other_outcomes_keep_registry. Qed.
+
+(* the two histories the harness runs on the real servers (corpus-dyn-reconnect, corpus-dyn-goaway), computed by the model *)
+Example C06_dynamic_reconnect_example :
+  wf_cluster (d_c dx_reconnect)
+  /\ map served_by (snd (drun dx_reconnect dx_reconnect_ops))
+     = [Some (1, "ub"); None; Some (0, "ua"); Some (0, "ua"); None; Some (1, "ub")]
+  /\ map (fun x => match x with Some r => invocations r | None => 0 end) (snd (drun dx_reconnect dx_reconnect_ops)) = [2; 0; 1; 1; 0; 2].
+Proof. exact dyn_reconnect_example. Qed.
+
+Example C06_dynamic_goaway_example :
+  map status_of (snd (drun dx_goaway dx_goaway_ops)) = [None; Some 502%N; Some 502%N; None]
+  /\ map served_by (snd (drun dx_goaway dx_goaway_ops)) = [None; None; None; Some (2, "uc")]
+  /\ map (fun x => match x with Some r => invocations r | None => 0 end) (snd (drun dx_goaway dx_goaway_ops)) = [0; 2; 2; 2]
+  /\ registered_anywhere (d_c (fst (drun dx_goaway dx_goaway_ops))) "ug" = false
+  /\ registered_anywhere (d_c (fst (drun dx_goaway dx_goaway_ops))) "uc" = true.
+Proof. exact dyn_goaway_example. Qed.
+
 Print Assumptions C06_local_first.
 Print Assumptions C06_one_hop.
 Print Assumptions C06_forwarded_never_forwarded_again.
 Print Assumptions C06_no_amplification.
 Print Assumptions C06_refuted_pinned.
+Print Assumptions C06_dynamic_wf.
+Print Assumptions C06_dynamic_local_first.
+Print Assumptions C06_dynamic_one_hop.
+Print Assumptions C06_refused_dial_is_502.
+Print Assumptions C06_gone_deregistered.
+Print Assumptions C06_other_outcomes_keep_registry.
